@@ -109,7 +109,11 @@ pub struct RunConfig {
 /// operation is executed — so that a use-after-free in the code under test
 /// is reported instead of executed.
 pub trait Monitor: Send + Sync {
-    fn on_event(&self, _e: &Event) {}
+    /// Sees every logged event; returning a message stops the run (with
+    /// [`Failure::Invariant`]) before any other thread is released.
+    fn on_event(&self, _e: &Event) -> Option<String> {
+        None
+    }
     fn pre_touch(&self, _tid: usize, _addr: usize) -> Option<String> {
         None
     }
@@ -323,6 +327,7 @@ pub struct State {
     pub(crate) user: Option<Arc<dyn std::any::Any + Send + Sync>>,
     pub(crate) precision_reads: u64,
     pub(crate) monitor: Option<Arc<dyn Monitor>>,
+    pub(crate) pending_invariant: Option<String>,
 }
 
 pub(crate) enum Step<R> {
@@ -393,7 +398,11 @@ impl State {
         let vc = self.threads[tid].vc;
         let e = Event { seq, tid: tid as u8, vt: self.clock.now, kind, vc };
         if let Some(m) = &self.monitor {
-            m.on_event(&e);
+            if let Some(msg) = m.on_event(&e) {
+                if self.pending_invariant.is_none() {
+                    self.pending_invariant = Some(msg);
+                }
+            }
         }
         self.events.push(e);
     }
@@ -601,6 +610,9 @@ impl Sim {
 
     /// Picks the next thread and hands over. Returns when `me` runs again.
     fn reschedule(&self, mut st: MutexGuard<'_, State>, me: usize) {
+        if let Some(message) = st.pending_invariant.take() {
+            self.fail(st, Failure::Invariant { message });
+        }
         st.steps += 1;
         if st.steps > st.max_steps {
             let steps = st.steps;
@@ -904,6 +916,7 @@ pub fn run(cfg: RunConfig, main: Box<dyn FnOnce() + Send>) -> RunResult {
         user: cfg.user.clone(),
         precision_reads: 0,
         monitor: cfg.monitor.clone(),
+        pending_invariant: None,
     };
     const F: AtomicBool = AtomicBool::new(false);
     let sim = Arc::new(Sim {
